@@ -146,12 +146,14 @@ def run(ctx: Ctx) -> Result:
     # (c) soft forks in fresh interpreters
     codes_c = free if ctx.tier == 'thorough' else sorted(set([free[0], free[-1]] + rng.sample(free, min(3, len(free)))))
     reqs = []
-    for code in codes_c:
+    for ci_, code in enumerate(codes_c):
         scripts = fork_scripts(rng, keys, code, ctx.n(120, 400))
-        name = f'OP_FORK_{code}'
-        srcs_new = [f'{name} d{n}' for n in (0, 1, 3, 127)] + [f'{name.lower()} x{n:02x}' for n in (0, 3, 0x80, 0xff)] + [f'FK{code} d2', f'op_fk{code} d2']
+        # a fork's name is the embedder's choice: any OP_-prefixed word, also one that contains the letters of a built-in spelling
+        name = [f'OP_FORK_{code}', f'OP_CANOPY_{code}', f'OP_X{code}_NOPE', f'OP_PUSHY_{code}'][ci_ % 4]
+        al_ = [f'FK{code}', f'OP_FK{code}'] if ci_ % 2 == 0 else [f'KNOPF{code}', f'OP_FK{code}']
+        srcs_new = [f'{name} d{n}' for n in (0, 1, 3, 127)] + [f'{name.lower()} x{n:02x}' for n in (0, 3, 0x80, 0xff)] + [f'{al_[0]} d2', f'{al_[1].lower()} d2']
         srcs_old = [f'NOP{code} d{n}' for n in (0, 1, 3, 127)] + [f'nop{code} x{n:02x}' for n in (0, 3, 0x80, 0xff)] + [f'NOP{code} d2', f'NOP{code} d2']
-        base = {'repo': REPO, 'code': code, 'name': name, 'aliases': [f'FK{code}', f'OP_FK{code}'], 'auth': scripts}
+        base = {'repo': REPO, 'code': code, 'name': name, 'aliases': al_, 'auth': scripts}
         reqs.append(({**base, 'kind': None, 'compile': srcs_old, 'decompile': [bytes([code, 3]).hex()]}, None))
         # an install attempt that is refused (name without the OP_ prefix) must leave the byte an ordinary NOP
         reqs.append(({**base, 'kind': None, 'rejected_installs': [f'FORK_{code}', f'fork{code}'], 'compile': srcs_old, 'decompile': [bytes([code, 3]).hex()]}, 'rejected-install'))
